@@ -84,7 +84,8 @@ def chain(fam, params, unit_smi, blocks, rng):
 
 
 def block_sizes(g, lib, units):
-    """instances of each block's unit token in the returned molecule, from the residue numbers on the atoms"""
+    """instances of each block's unit token in the returned molecule, from the residue numbers on the atoms; cross-checked against the
+    molecule itself (atom count and heavy-atom mass must be prefix + sum(n_b x unit_b) + suffix computed from the WRITTEN fragments)"""
     mol = g.mol
     per = collections.Counter(a.GetPDBResidueInfo().GetResidueNumber() for a in mol.GetAtoms())
     sizes = []
@@ -95,7 +96,15 @@ def block_sizes(g, lib, units):
             n_atoms = len(tok.atoms)
             sizes.append(per.get(tok.res_id, 0) // n_atoms)
             k += 1
+    want_atoms = gen.fragment_info("BrC")[0] + gen.fragment_info("CCl")[0] + sum(n * gen.fragment_info(u.name)[0] for n, u in zip(sizes, units))
+    want_mass = gen.fragment_info("BrC")[2] + gen.fragment_info("CCl")[2] + sum(n * gen.fragment_info(u.name)[2] for n, u in zip(sizes, units))
+    if mol.GetNumAtoms() != want_atoms or abs(g.weight - want_mass) > 1e-6 * want_mass:
+        raise SizesDisagree(f"residue labels give block sizes {sizes}, i.e. {want_atoms} atoms / {want_mass:.3f} u, the molecule has {mol.GetNumAtoms()} atoms / {g.weight:.3f} u")
     return sizes
+
+
+class SizesDisagree(Exception):
+    pass
 
 
 def expected_size(T, m, nmax=100000):
@@ -164,7 +173,11 @@ def run_case(case):
                 continue
             if case.get("large"):
                 cnt["large_mass_generations"] += 1
-            sizes = block_sizes(obs["mol"], lib, units)
+            try:
+                sizes = block_sizes(obs["mol"], lib, units)
+            except SizesDisagree as exc:
+                viol.append({"cls": "c09.block-sizes-not-readable-from-molecule", "msg": f"{label}: {exc}", "text": text})
+                continue
             draws = [e["value"] for e in obs["events"] if e["k"] == "draw"]
             Tref = ref.ppf(q)
             if ref.discrete and fam == "flory_schulz":
@@ -200,7 +213,11 @@ def run_case(case):
                 draws = [e["value"] for e in obs["events"] if e["k"] == "draw"]
                 if len(draws) != len(units):
                     viol.append({"cls": "c09.draw-count", "msg": f"{label}: {len(draws)} draws for {len(units)} blocks", "text": text})
-                sizes_all.append(block_sizes(obs["mol"], lib, units))
+                try:
+                    sizes_all.append(block_sizes(obs["mol"], lib, units))
+                except SizesDisagree as exc:
+                    viol.append({"cls": "c09.block-sizes-not-readable-from-molecule", "msg": f"{label}: {exc}", "text": text})
+                    failed += 1
             return sizes_all, failed
 
         def reject(sizes_all):
